@@ -101,19 +101,22 @@ Proof. unfold next_ln. destruct (lns s); cbn; auto. Qed.
 
 (* the parts of the state the oracle reads do not touch *)
 Definition osame s s' : Prop :=
-  core_of s' = core_of s /\ loci s' = loci s /\ omono s s'.
+  core_of s' = core_of s /\ (loci s' = loci s /\ ids s' = ids s /\ world s' = world s) /\ omono s s'.
 Lemma osame_refl s : osame s s.
-Proof. split; [reflexivity|split; [reflexivity|apply omono_refl]]. Qed.
+Proof. split; [reflexivity|split; [repeat split|apply omono_refl]]. Qed.
 Lemma osame_trans s1 s2 s3 : osame s1 s2 -> osame s2 s3 -> osame s1 s3.
-Proof. intros [A [B C]] [D [E F]]. split; [congruence|split; [congruence|eapply omono_trans; eassumption]]. Qed.
+Proof.
+  intros [A [[B1 [B2 B3]] C]] [D [[E1 [E2 E3]] F]].
+  split; [congruence|split; [repeat split; congruence|eapply omono_trans; eassumption]].
+Qed.
 Lemma next_rand_osame s : osame s (snd (next_rand s)).
-Proof. split; [apply next_rand_core|split; [|apply next_rand_core]]. unfold next_rand. destruct (rands s); reflexivity. Qed.
+Proof. split; [apply next_rand_core|split; [|apply next_rand_core]]. unfold next_rand. destruct (rands s); repeat split. Qed.
 Lemma next_ln_osame s : osame s (snd (next_ln s)).
-Proof. split; [apply next_ln_core|split; [|apply next_ln_core]]. unfold next_ln. destruct (lns s); reflexivity. Qed.
+Proof. split; [apply next_ln_core|split; [|apply next_ln_core]]. unfold next_ln. destruct (lns s); repeat split. Qed.
 Lemma next_draw_osame s : osame s (snd (next_draw s)).
-Proof. split; [apply next_draw_core|split; [|apply next_draw_core]]. unfold next_draw. destruct (draws s); reflexivity. Qed.
+Proof. split; [apply next_draw_core|split; [|apply next_draw_core]]. unfold next_draw. destruct (draws s); repeat split. Qed.
 Lemma set_stuck_osame s : osame s (set_stuck s).
-Proof. split; [reflexivity|split; [reflexivity|split; [apply incl_refl|reflexivity]]]. Qed.
+Proof. split; [reflexivity|split; [repeat split|split; [apply incl_refl|reflexivity]]]. Qed.
 
 Lemma trials_osame p x els s : osame s (snd (trials p x els s)).
 Proof.
